@@ -112,8 +112,15 @@ def wrap_kind(path):
                 if not IS.find_all(side, is_eval):
                     continue
                 x = side
-                while x[0] == 'res':
-                    x = x[3]
+                while True:
+                    if x[0] == 'res':
+                        x = x[3]
+                    elif x[0] == 'bin' and x[1] in ('+', '-', '>>') and is_const(x[3]) and isinstance(x[3][1], int):
+                        x = x[2]          # (value + 2048) >> 12: arithmetic with constants on the same value
+                    elif x[0] == 'bin' and x[1] == '+' and is_const(x[2]) and isinstance(x[2][1], int):
+                        x = x[3]
+                    else:
+                        break
                 if is_eval(x):
                     kinds.add('raw')
                 elif x[0] == 'attr' and x[2] == 'value' and x[1][0] == 'call' and x[1][1] in ('c_int32', 'ctypes.c_int32') and len(x[1][2]) == 1:
